@@ -15,7 +15,7 @@ Proof. exact lex_print_roundtrip. Qed.
 Print Assumptions C10_lex_print_roundtrip.
 
 Example C10_lex_print_roundtrip_nonvacuous :
-  let ts := [(bs "say \""%string ++ [10] ++ bs "hi\ # {"%string, true); ([], false); (bs "x"%string, true)] in
+  let ts := [([115; 97; 121; 32; 34; 10; 104; 105; 92; 32; 35; 32; 123], true); ([], false); ([120], true)] in
   forallb (fun p => okq (fst p)) ts = true /\ map t_line (lex (print ts)) = [1; 3; 3]%Z.
 Proof. vm_compute. auto. Qed.
 
